@@ -330,7 +330,7 @@ theorem crashed_settle (infoOf : AMsg → MsgInfo) (hv : ∀ m, (infoOf m).valid
     · rw [ih]; simp only [crashed_pumpAll infoOf hv hk, crashed_ioIteration]
     · simp only [crashed_pumpAll infoOf hv hk, crashed_ioIteration]
 
-@[simp] theorem crashed_appSendAnswer (s : St) (ai : Nat) (req : AMsg) (info : MsgInfo) (rc : Nat) :
+@[simp] theorem crashed_appSendAnswer (s : St) (ai : Nat) (req : AMsg) (info : MsgInfo) (rc : Option Nat) :
     (appSendAnswer s ai req info rc).crashed = s.crashed := by
   unfold appSendAnswer
   dsimp only
